@@ -38,7 +38,7 @@ def mkConstraint (lhs : Expr) (s : Sense) (rhs : Operand) : Except Err Constrain
   | .scalar e => .ok ⟨.bin .sub lhs e, s⟩
   | .npNum q | .arr0 q => .ok ⟨.bin .sub lhs (cst q), s⟩
   | .epow _ _ | .eun _ _ => .error .outsideModel   -- an `Expression` that evaluates to an array (finding F24 family)
-  | .arr1 _ | .arr2 _ | .arrN _ | .list1 _ | .list2 _
+  | .arr1 _ | .arr2 _ | .arrN _ _ | .list1 _ | .list2 _
   | .vvar _ | .vexpr _ | .mvp _ _ | .mvar _ | .mexpr _ => .error .typeError
 
 /-- the scalar value an accepted right-hand side stands for -/
@@ -102,7 +102,7 @@ def vectorConstraint (left : VecLike) (right : Operand) (s : Sense) : Except Err
   | .arr1 xs | .list1 xs =>
     if xs.length != ls.length then .error .dimensionMismatch
     else mapM_mk s ls (xs.map Operand.pyNum)             -- `float(val)`
-  | .arr0 _ | .arr2 _ | .list2 _ | .arrN _ => .error .wrongDimensionality
+  | .arr0 _ | .arr2 _ | .list2 _ | .arrN _ _ => .error .wrongDimensionality
   | .npNum _ | .scalar _ | .epow _ _ | .eun _ _ | .mvar _ | .mexpr _ => .error .invalidOperation
 
 /-- `_matrix_constraint(left, right, sense)`: row-major list -/
@@ -114,7 +114,7 @@ def matrixConstraint (left : MatLike) (right : Operand) (s : Sense) : Except Err
   | .arr2 r =>
     if gridShape r != gridShape g then .error .dimensionMismatch
     else mapM_mk s ls (r.flatten.map Operand.pyNum)      -- `float(right[i, j])`
-  | .arr0 _ | .arr1 _ | .arrN _ => .error .dimensionMismatch
+  | .arr0 _ | .arr1 _ | .arrN _ _ => .error .dimensionMismatch
   | .mvar w =>
     if (w.nrows, w.ncols) != gridShape g then .error .dimensionMismatch
     else mapM_mk s ls (w.rows.flatten.map fun x => Operand.scalar (.var x))
@@ -151,7 +151,7 @@ inductive OKind
 def Operand.kind (isNpScalar : Bool) : Operand → OKind
   | .pyNum _ => if isNpScalar then .npScalar else .python
   | .npNum _ => .npScalar
-  | .arr0 _ | .arr1 _ | .arr2 _ | .arrN _ => .ndarray
+  | .arr0 _ | .arr1 _ | .arr2 _ | .arrN _ _ => .ndarray
   | .list1 _ | .list2 _ => .python
   | .scalar _ | .epow _ _ | .eun _ _ => .exprNode
   | .vvar _ => .vecVar
@@ -203,7 +203,12 @@ def build (recv other : Operand) (s : Sense) : Outcome :=
     match mkConstraint e s other with
     | .ok c => .single c
     | .error e => .raised e
-  | .epow _ _ | .eun _ _ => .raised .outsideModel  -- F24: one Constraint over an array-valued node
+  | .epow _ _ | .eun _ _ =>
+    -- F24: `_make_constraint` runs with an array-valued node as lhs; a rhs that `float()` rejects still
+    -- raises, anything else yields one Constraint outside the expression syntax
+    match mkConstraint (cst 0) s other with
+    | .error .typeError => .raised .typeError
+    | _ => .raised .outsideModel
   | .vvar v =>
     match vectorConstraint (.vvar v) other s with | .ok cs => .many cs | .error e => .raised e
   | .vexpr es =>
